@@ -85,8 +85,15 @@ func callOp(name string, recv, arg mapset.Set, val int) {
 func locksHandler(args []string) (string, []string) {
 	var ps propSink
 	switch {
-	case len(args) == 1 && args[0] == "seqs":
-		_, entries, err := lockrec.All(repoRoot)
+	case len(args) == 1 && (args[0] == "seqs" || args[0] == "skels"):
+		var entries []lockrec.Entry
+		var err error
+		if args[0] == "seqs" {
+			_, entries, err = lockrec.All(repoRoot)
+		} else {
+			// lock events alone, from the running code (no reading of the source)
+			entries, err = lockrec.Skeletons()
+		}
 		if err != nil {
 			return "extract-error " + strings.ReplaceAll(err.Error(), "\n", " "), nil
 		}
@@ -133,8 +140,7 @@ type gate struct {
 }
 
 func replaySchedule(ps *propSink, progSpec, schedSpec string) string {
-	static, entries, err := lockrec.All(repoRoot)
-	_ = static
+	entries, err := lockrec.Skeletons()
 	if err != nil {
 		return "extract-error"
 	}
@@ -304,21 +310,7 @@ func replaySchedule(ps *propSink, progSpec, schedSpec string) string {
 // writer queued on each set; a watchdog reports goroutines that never return
 
 func stressPairs(ps *propSink) string {
-	static, err := lockrec.ExtractStatic(repoRoot)
-	names := []string{}
-	if err == nil {
-		for n := range static {
-			names = append(names, n)
-		}
-	} else {
-		t := reflect.TypeOf(mapset.NewSet())
-		for i := 0; i < t.NumMethod(); i++ {
-			n := t.Method(i).Name
-			if n != "Lock" && n != "Unlock" && n != "RLock" && n != "RUnlock" && n != "RLocker" && n != "TryLock" && n != "TryRLock" {
-				names = append(names, n)
-			}
-		}
-	}
+	names, _ := lockrec.OpNames()
 	runs, hung := 0, 0
 	for _, n1 := range names {
 		for _, n2 := range names {
@@ -359,21 +351,7 @@ func stressPairs(ps *propSink) string {
 // the detector prints its reports to stderr, the check reads them
 
 func racePairs() string {
-	static, err := lockrec.ExtractStatic(repoRoot)
-	names := []string{}
-	if err == nil {
-		for n := range static {
-			names = append(names, n)
-		}
-	} else {
-		t := reflect.TypeOf(mapset.NewSet())
-		for i := 0; i < t.NumMethod(); i++ {
-			n := t.Method(i).Name
-			if n != "Lock" && n != "Unlock" && n != "RLock" && n != "RUnlock" && n != "RLocker" && n != "TryLock" && n != "TryRLock" {
-				names = append(names, n)
-			}
-		}
-	}
+	names, _ := lockrec.OpNames()
 	pairs := 0
 	for _, n1 := range names {
 		for _, n2 := range names {
